@@ -37,6 +37,8 @@ func round4(c *Ctx) {
 		r4TaggedStructs(c)
 	case "C07":
 		r5DeepCarriers(c)
+		r5NonFiniteNumbers(c)
+		r5YAMLKeysThatAreNotStrings(c)
 		r4Cyclic(c)
 		r4LocalTypes(c, []string{"$.one.k", "$.two.k", "$.one.IsEmpty()", "$.two.Sum()", "$.one.Sum()"})
 	case "C10":
@@ -47,6 +49,7 @@ func round4(c *Ctx) {
 		r5TextBehindPointers(c)
 	case "C11":
 		r5DeepCarriers(c)
+		r5AnswersOnEqualCopies(c)
 		r4Purity(c)
 		r4RegexHistory(c)
 	case "C17":
@@ -536,5 +539,83 @@ func r5StructLayouts(c *Ctx) {
 	for _, q := range []string{"$.d.id", "$.d.ID", "$.d.id?.IsNull()", "$.d.id.IsNull()", "$.d.Id?.IsNotNull()", "$.d2.id", "$.d2.id?.IsNull()", "$.d.name", "$.d.name?.IsNull()", "$.f.k", "$.f.a", "$.f.hidden", "$.f.hidden?.IsNull()",
 		"$.a.a", "$.a.A", "$.o.only", "$.o.only?.IsNull()", "$.list.id", "$.list.ID", "$.list.name", "$.list.k", "$.list[@.id?.IsNotNull()].Count()", "$.list[@.name?.IsNull()].Count()", `$.list.Select("$.id")`} {
 		c.Do(Case{Q: q, D: d, Cls: "round5/struct-layouts/keys", InDomain: true})
+	}
+}
+
+// C07: the floats that no decimal can hold, in every place a number can sit (Go data, and the literals YAML and TOML have for them)
+func r5NonFiniteNumbers(c *Ctx) {
+	for _, f := range []float64{math.Inf(-1), math.Inf(1), math.NaN()} {
+		row := func(n string, d float64) *TV {
+			return tvStruct([][3]any{{"Name", 1, tvStr(n)}, {"Delta", 1, tvF64(d)}})
+		}
+		docs := []*TV{tvMap("str", [][2]any{kv("x", tvF64(f)), kv("n", tvF64(1)), kv("l", tvSlice(1, tvF64(f), tvF64(1))), kv("t", tvSlice(0, tvF64(1), tvF64(f)))}),
+			tvMap("str", [][2]any{kv("x", tvPtr(tvF64(f))), kv("n", tvF64(1)), kv("l", tvSlice(1, tvF64(1), tvF64(f))), kv("t", tvSlice(0, tvF64(f)))}),
+			tvMap("str", [][2]any{kv("x", tvF32(float32(f), 2)), kv("n", tvF64(1)), kv("l", tvSlice(1)), kv("t", tvSlice(0))}),
+			tvStruct([][3]any{{"X", 1, tvF64(f)}, {"N", 1, tvF64(1)}, {"L", 1, tvSlice(0, row("a", 1), row("b", f))}, {"T", 1, tvSlice(0, tvF64(f))}})}
+		for _, d := range docs {
+			for _, q := range []string{"$.x", "$.x.IsNull()", "$.l.First()", "$.l.Last()", "$.l.Count()", "$.l.Sum()", "$.t.Sum()", "$.t.Maximum()", "$.n.Add($.x)", "$.x.Add(1)", "$.x.Equal($.x)", "$.x.Less(1)", "$.n.AnyOf($.x)",
+				"$.l.delta", "$.l[@.name.Equal(\"b\")].First().delta.AsJSON()", "$.l.Select(\"@.delta\")", "$.AsJSON()", "$.x.AsJSON()", "$.Sum()", "$.x.Sprintf(\"%v\")", "$.t.Index($.x)", "$.t.Average()", "{$.x}", "$.l[@.Equal($.x)]"} {
+				c.Do(Case{Q: q, D: d, Cls: "round5/non-finite-numbers", InDomain: false})
+			}
+		}
+	}
+	for _, doc := range []string{"x: -.inf\n", "x: .inf\n", "x: .nan\n", "l: [1, -.inf]\n", "x = -inf\n", "x = inf\n", "x = nan\n", "l = [1.0, -inf]\n"} {
+		for _, q := range []string{"$.ParseYAML().x", "$.ParseYAML().l.Sum()", "$.ParseYAML().x.Add(1)", "$.ParseTOML().x", "$.ParseTOML().l.Sum()", "$.ParseTOML().x.Add(1)", "$.ParseYAML()", "$.ParseTOML()", "$.ParseYAML().x.AsJSON()"} {
+			c.Do(Case{Q: q, D: tvStr(doc), Cls: "round5/non-finite-numbers/parsed", InDomain: false})
+		}
+	}
+}
+
+// C07: YAML mappings below the top whose keys are not strings (numbers, null, the YAML 1.1 words yes/no/on/off)
+func r5YAMLKeysThatAreNotStrings(c *Ctx) {
+	for _, doc := range []string{"retries:\n  404: 0\n  503: 3\n", "country:\n  no: Norway\n  se: Sweden\n", "jobs:\n  on: push\n  name: build\n", "m:\n  ~: nothing\n  a: 1\n", "m: {1.5: x}\n", "rows:\n  - {1: a, 2: b}\n",
+		"a:\n  b:\n    7: x\n", "m: {yes: 1}\n", "m: {[1, 2]: x}\n", "m: {{a: 1}: x}\n", "m:\n  2001-01-01: d\n", "m: {0x10: x, 0o7: y, -1: z}\n", "a:\n  b: 1\n  \"2\": x\n  'no': y\n"} {
+		for _, q := range []string{"$.ParseYAML()", "$.ParseYAML().retries", "$.ParseYAML().country", "$.ParseYAML().jobs", "$.ParseYAML().m", "$.ParseYAML().rows.First()", "$.ParseYAML().a.b", "$.ParseYAML().m.IsNotNull()", "$.ParseYAML().AsJSON()",
+			"$.ParseYAML().m.Count()"} {
+			c.Do(Case{Q: q, D: tvStr(doc), Cls: "round5/yaml-keys-that-are-not-strings", InDomain: false})
+		}
+		d := tvMap("str", [][2]any{kv("docs", tvSlice(1, tvStr(doc)))})
+		for _, q := range []string{"$.docs.Select(\"@.ParseYAML().m\")", "$.docs[@.ParseYAML().m.IsNotNull()]", "$.docs.First().ParseYAML()"} {
+			c.Do(Case{Q: q, D: d, Cls: "round5/yaml-keys-that-are-not-strings", InDomain: false})
+		}
+	}
+}
+
+// C11: the answer - a value or an error, its text included - is the same on a second document equal to the first (built apart from
+// it: other addresses) and on the first again
+func r5AnswersOnEqualCopies(c *Ctx) {
+	dims := func(w int, u string) *TV {
+		return tvPtr(tvStruct([][3]any{{"Weight", 1, tvPtr(tvInt("int", fmt.Sprint(w)))}, {"Unit", 1, tvPtr(tvStr(u))}}))
+	}
+	item := func(n string, w int) *TV {
+		return tvStruct([][3]any{{"Name", 1, tvStr(n)}, {"Dims", 1, dims(w, "kg")}})
+	}
+	docs := []*TV{
+		tvPtr(tvStruct([][3]any{{"Ref", 1, tvStr("r1")}, {"Item", 1, item("box", 7)}, {"Items", 1, tvSlice(0, tvPtr(item("a", 9)))}, {"F", 1, &TV{T: "func"}}, {"Ch", 1, &TV{T: "chan"}}, {"M", 1, tvMap("str", [][2]any{kv("p", tvPtr(tvInt("int", "3")))})}})),
+		tvMap("str", [][2]any{kv("ref", tvStr("r1")), kv("item", tvPtr(item("box", 7))), kv("items", tvSlice(1, tvPtr(item("a", 9)), tvPtr(tvPtr(tvInt("int", "4"))))), kv("f", &TV{T: "func"}), kv("ch", &TV{T: "chan"}),
+			kv("m", tvMap("iface", [][2]any{kv("p", tvPtr(tvPtr(tvStr("s"))))}))}),
+	}
+	for _, d := range docs {
+		for _, q := range []string{"$.ref.Equal($.item)", "$.ref.AnyOf($.items)", "$.ref.Equal($.item.name)", "$.ref.Equal($.f)", "$.ref.Equal($.ch)", "$.ref.AnyOf($.m)", "$.ref.Contains($.item)", "$.ref.Add($.items)", "$.item.dims.weight.Add($.item)",
+			"$.ref.Sprintf($.item)", "$.ref.Equal($.items.First())", "$.ref.Equal($.item.dims)", "$.item.dims.weight.Less($.m)", "$.items.Index($.item)", "$.ref.Left($.item.dims)", "$.ref.Equal($.m.p)", "$.item", "$.items", "$.m", "$.item.Equal($.item)",
+			"$.nosuch.Equal($.item)", "$.ref.NoSuch($.item)", "$.items.Select($.item)", "$.ref.ReplaceAll($.item,$.items)", "$.item.AsJSON()", "$.AsJSON()"} {
+			a, b := buildAny(d), buildAny(d)
+			o1, o2, o3 := runCase(q, a), runCase(q, b), runCase(q, a)
+			c.Do(Case{Q: q, D: d, Cls: "round5/answers-on-equal-copies", InDomain: false})
+			same := func(x, y Outcome) bool {
+				if x.Class != y.Class || x.Msg != y.Msg {
+					return false
+				}
+				return x.Class != "ok" || x.Logical == y.Logical
+			}
+			if !same(o1, o2) || !same(o1, o3) {
+				got := o2
+				if same(o1, o2) {
+					got = o3
+				}
+				c.addViolation(Violation{Kind: "nondeterminism", Query: q, QueryHex: hx(q), Data: d, Expected: trunc(o1.Class+" "+o1.Logical+" "+o1.Msg, 300), Got: trunc(got.Class+" "+got.Logical+" "+got.Msg, 300), Cls: "round5/answers-on-equal-copies",
+					Why: "the same operation on an equal document (or on the same document again) gives another answer", Key: "nondet:equal-copies:" + lastFunc(q)})
+			}
+		}
 	}
 }
